@@ -26,6 +26,7 @@ git apply $out/patch.diff
 echo "seed $id: existing suite with change=$suite demo with change=$with demo without change=$without"
 res=""
 for p in "$@"; do
+  [ -n "${SKIP_CHECKS:-}" ] && continue
   GOSX_EVIDENCE_DIR=$out GOSX_REPO_DIR=$sv /verif/bin/gosx check $p quick > $out/check_$p.log 2>&1; rc=$?
   v=$(grep -c '^VIOLATION' $out/check_$p.log)
   echo "   check $p: exit=$rc violations=$v $(grep -m1 'label=' $out/check_$p.log | cut -c1-200)"
